@@ -953,6 +953,7 @@ def report_f1(ctx, f1_seen, probe, pid):
     the probe as the failing input.  Non-linear members: up to 4 are probed, KNOWN-FINDING when the misbehaviour shows."""
     lin = [r for r in f1_seen if r.get("f1_linear")]
     non = [r for r in f1_seen if not r.get("f1_linear")][:4]
+    non.append({"cfg": mkcfg(1, 32, 4 | 0x10, 0, simd=1)})       # a fixed member with the F1 signature (HQ, intermediate phase, post stage L = 8)
     ctx.count("f1_signature_configurations_set_aside", len(f1_seen))
     ctx.count("f1_signature_with_linear_phase", len(lin))
     res = pool_map(probe, [r["cfg"] for r in lin[:12] + non])
